@@ -147,7 +147,8 @@ def handle (j : Json) : R Json := do
     let wakes ← (← fldArr j "waits").mapM parseWake
     let env := mkEnv advs.toArray calls.toArray wakes.toArray
     let σ0 : PollState := { clock := ← fldNat j "clock", nRead := 0, nCall := 0, nWait := 0, trig := false,
-                            mods := ms.map (·.1), toPoll := none, stamp := initStamp (ms.map (·.2)) }
+                            mods := ms.map (·.1), toPoll := none, stamp := initStamp (ms.map (·.2)),
+                            refreshed := initStamp (ms.map (·.2)) }
     let p := prologue consts env σ0
     let (σ, evs, dbg) := loopTurns env advs.length (advs.length + 1) p.σ p.evs.toArray #[]
     let wantDbg := (j.getObjVal? "debug").toOption.isSome
